@@ -368,6 +368,29 @@ def evaluate(spec, args, ts, why):
     for cand in rp["candidates"]:
         for d in candidate_defects(cand.resolution, norm_len):
             effects.append(("C02", "candidate %r: %s" % (cand.resolution, d)))
+    if "shared between applications" in (why or ""):
+        # the rule hands out a shared object: let the expression occur twice and watch whether a
+        # value produced for the first occurrence is rewritten by the second
+        text2 = text + " xyz " + text
+        seen = {}
+        orig = REG[rule]
+
+        def rec2(ts_, *a):
+            r = orig[0](ts_, *a)
+            if r is not None:
+                if id(r) in seen and seen[id(r)][1] != _snap(r):
+                    effects.append(("FRAME", "in %r a value of %s produced earlier (%s) was rewritten by a later application (now %s)" % (text2, rule, seen[id(r)][1], _snap(r))))
+                seen[id(r)] = (r, _snap(r))
+            return r
+        REG[rule] = (rec2, orig[1])
+        try:
+            try:
+                list(CT.ctparse_gen(text2, ts=ts, timeout=0, max_stack_depth=0))
+            except Exception as e:      # noqa
+                effects.append(("C01", "exception: %r" % (e,)))
+        finally:
+            REG[rule] = orig
+        info["text_doubled"] = text2
     if reached.get("mutated") or reached.get("aliased"):
         effects.append(("FRAME", "the call {}({}) modified or handed back its argument".format(rule, ", ".join(str(a) for a in reached["args_before"]))))
     if reached.get("exception"):
